@@ -363,8 +363,14 @@ impl<const N: usize> PublicKey<N> {
                     }
                     int
                 })
-                .map(Felt::new)
-                .collect_vec(),
+                .map(|int| {
+                    if int >= Q as i16 {
+                        Err(FalconDeserializationError::BadFieldElementEncoding)
+                    } else {
+                        Ok(Felt::new(int))
+                    }
+                })
+                .collect::<Result<Vec<Felt>, _>>()?,
         );
 
         Ok(PublicKey { h })
